@@ -1,7 +1,12 @@
 """C07 — CSV, Excel and AIF round trips preserve the isotherm.
 
 Lean: Props/C07.lean (pyGAPS's own text codec: `cast_string` classes, the decidable domain predicate `inCsvDomain`, the
-metadata line codec).  Tie: correspondence of Model/TextCodec.lean with the real `cast_string` on grammar-directed strings, and the
+metadata line codec) and Props/C07/Formats.lean (the GENERATED format tables Gen/Formats.lean — AIF tag maps, Excel cell positions,
+the order of the CSV model block, prefixes / slices / version gates of writers and readers — and the list codec `_to_string` /
+`_from_list`, the material-property prefix, AIF key mangling and quoting, Excel's end-of-table test).
+Tie: correspondence of Model/TextCodec.lean with the real `cast_string`, `_from_list`, `_to_string`, `str.replace`, `str.strip` and — for
+logic that is inline in the readers — with `isotherm_from_csv/_aif/_xl` on minimal crafted documents, all on grammar-directed inputs;
+the generated tables are compared with the imported Python objects and with the documents the real writers produce; the
 domain predicate of the theorems is the one the harness uses to draw in-domain text.
 Failing-input search: full round trips in the three formats x three classes x unit configurations x data shapes with metadata drawn
 from each format's value domain, and one out-of-domain value per isotherm which must be refused with a pyGAPS error or survive unchanged.
@@ -25,6 +30,17 @@ def hx(s):
     return s.encode("utf-8").hex() if s else "-"
 
 
+def unhx(h):
+    return "" if h == "-" else bytes.fromhex(h).decode("utf-8")
+
+
+SEQ_ALPHA = "0123456789+-.eE_ ,a"
+SEQ_SEEDS = ["[]", "()", "[1 2]", "(1 2)", "(1.5)", "(1,)", "[1,]", "[-3 4]", "[1e5 2]", "[007]", "[0_0]", "[1 2)", "(1 2]", "[inf]", "[nan 1.0]", "[ 1]", "[1 ]", "[1  2]", "[,]",
+             "[+1]", "[--1]", "[1-2]", "[1_000 2.5e-3]", "[.5 5.]", "[1e+ 2]", "[00]", "[01]", "[1.e5]", "[a]", "[1]", "[", "]", "[1", "1]", "(", "[[]", "[1 -0.0 5e-324]"]
+MAT_PIECES = ["_material_", "_mat", "erial_", "sample_", "sam", "ple_", "a", "b_", "x1", "_", "Q"]
+KEY_ALPHA = "abXY019_-. "
+
+
 def cast_class(cast_string, s):
     try:
         v = cast_string(s)
@@ -43,18 +59,106 @@ def cast_class(cast_string, s):
     return "str" if isinstance(v, str) else "other:" + type(v).__name__
 
 
+class _Warnings:
+    """records whether pyGAPS logged a warning (the version gates only warn)"""
+
+    def __init__(self, logger):
+        import logging
+        self.logger, self.seen = logger, []
+
+        class H(logging.Handler):
+            def emit(h, record):  # noqa: N805
+                self.seen.append(record.getMessage())
+        self.h = H(level=logging.WARNING)
+
+    def __enter__(self):
+        import logging
+        self.old = (self.logger.level, self.logger.propagate, list(self.logger.handlers))
+        self.logger.handlers = [self.h]
+        self.logger.propagate = False
+        self.logger.setLevel(logging.WARNING)
+        return self
+
+    def __exit__(self, *a):
+        self.logger.setLevel(self.old[0])
+        self.logger.propagate = self.old[1]
+        self.logger.handlers = self.old[2]
+
+
+def _rows(ans, types):
+    """decode a `tbl` reply: rows `;`, fields `,`; types: 's' text (hex), 'n' number, '?' optional number"""
+    out = []
+    for row in ans.split(";") if ans else []:
+        f = row.split(",")
+        tt = types if len(types) >= len(f) else types + types[-1] * (len(f) - len(types))
+        out.append(tuple(unhx(x) if t == "s" else (None if x == "~" else int(x)) for x, t in zip(f, tt)))
+    return out
+
+
+BASE_KW = dict(material="m1", adsorbate="N2", temperature=77.0, pressure_mode="absolute", pressure_unit="bar", loading_basis="molar", loading_unit="mmol",
+               material_basis="mass", material_unit="g", temperature_unit="K")
+
+
+def _craft_xls(path, meta_dict, cells, value_off):
+    """a minimal pyGAPS workbook written with xlwt directly: header fields at the positions of `_META_DICT`, a two-column point table whose
+    first column holds `cells` ('n' a positive number, 'z' zero, 'e' nothing written)"""
+    import xlwt
+    wb = xlwt.Workbook()
+    sht = wb.add_sheet("data")
+    vals = dict(BASE_KW, isotherm_data="data")
+    for f in meta_dict.values():
+        sht.write(f["row"], f["column"], f["text"][0])
+        if f["name"] in vals:
+            sht.write(f["row"], f["column"] + value_off, vals[f["name"]])
+    r0 = meta_dict["isotherm_data"]["row"]
+    sht.write(r0 + 1, 0, "pressure")
+    sht.write(r0 + 1, 1, "loading")
+    for i, c in enumerate(cells):
+        if c != "e":
+            sht.write(r0 + 2 + i, 0, 0.0 if c == "z" else 0.5 + i)
+        sht.write(r0 + 2 + i, 1, 1.0 + i)
+    sht2 = wb.add_sheet("otherdata")
+    sht2.write(0, 0, "temperature_unit")
+    sht2.write(0, 1, "K")
+    wb.save(path)
+
+
 def run(ck):
     pg = import_pygaps()
     import numpy as np
+    import pygaps.parsing as parsing_pkg
+    import pygaps.parsing.aif as aif_mod
+    import pygaps.parsing.csv as csv_mod
+    import pygaps.parsing.excel as xl_mod
+    from pygaps.core.baseisotherm import BaseIsotherm
     from pygaps.parsing.aif import isotherm_from_aif, isotherm_to_aif
     from pygaps.parsing.csv import isotherm_from_csv, isotherm_to_csv
     from pygaps.parsing.excel import isotherm_from_xl, isotherm_to_xl
     from pygaps.utilities.exceptions import pgError
-    from pygaps.utilities.string_utilities import cast_string
+    from pygaps.utilities.string_utilities import _from_list, _to_string, cast_string
     rng = ck.rng
-    thorough = ck.tier == "thorough"
+    tmpdir = tempfile.mkdtemp(prefix="pgv-c07-")
+    n_dis = 0
+    dis_by = {}
 
-    # ------------------------------------------------------------------ A. cast_string vs the Lean model
+    def disagree(step, what):
+        """model and implementation differ on a concrete input"""
+        nonlocal n_dis
+        n_dis += 1
+        dis_by[step] = dis_by.get(step, 0) + 1
+        if dis_by[step] <= 2:
+            ck.broken.append({"step": "correspondence " + step, "what": what})
+
+    # ------------------------------------------------------------------ requests to the Lean driver (one process)
+    lines, index = [], {}
+
+    def ask(line):
+        if line not in index:
+            index[line] = len(lines)
+            lines.append(line)
+        return line
+
+    # A. cast_string
     strings = list(SEEDS)
     for _ in range(ck.n(500, 3000)):
         n = rng.choice([1, 1, 2, 3, 4, 6, 9])
@@ -64,37 +168,286 @@ def run(ck):
             s = s[::-1]
         strings.append(s)
     strings = [s for s in dict.fromkeys(strings)]
-    n_dis = 0
+    for s in strings:
+        ask(f"cast {hx(s)}")
+        ask(f"dom 2c {hx(s)}")
+    # A2. _from_list on bracketed texts over the numeric alphabet; _to_string on lists / tuples of numbers
+    seqs = list(SEQ_SEEDS)
+    good = ["1", "-2", "2.5", "1e5", "1_0", "0", "-0.0", "+3", ".5", "5.", "1e-05", "00", "0_0", "1E+3", "-7e-3", "12_345.6_7", "0.0", "9" * 20]
+    for _ in range(ck.n(300, 2500)):
+        o, c = rng.choice(["[]", "[]", "()", "()", "[)", "(]"]) if rng.random() < 0.3 else rng.choice(["[]", "()"])
+        k = rng.choice([1, 1, 2, 2, 3, 4])
+        if rng.random() < 0.55:         # well-formed: numeric literals, single blanks (what `_to_string` writes) or commas, sometimes a trailing comma
+            inner = rng.choice([" ", " ", " ", ","]).join(rng.choice(good) for _ in range(k)) + rng.choice(["", "", "", ","])
+        else:
+            items = [rng.choice(good + ["007", "0_1", "nan", "inf", "1__0", "--1", "1e", "e5"]) if rng.random() < 0.5 else
+                     "".join(rng.choice(SEQ_ALPHA[:17]) for _ in range(rng.randint(1, 5))) for _ in range(k)]
+            inner = rng.choice([" ", " ", ",", "  ", ", "]).join(items) + rng.choice(["", "", ",", " "])
+        seqs.append(o + inner + c)
+    seqs = [s for s in dict.fromkeys(seqs)]
+    for s in seqs:
+        ask(f"seq {hx(s)}")
+    values = []
+    pool = [0, 1, -3, 17, 10 ** 12, -(10 ** 9), 0.0, -0.0, 2.5, -2.25e-3, 1e-5, 1e16, 1e22, 5e-324, 1.7976931348623157e308, 0.1 + 0.2, 1 / 3, np.float64(0.1), np.float64(3.0), np.int64(4)]
+    for _ in range(ck.n(80, 600)):
+        k = rng.choice([0, 1, 1, 2, 2, 3, 5])
+        xs = [rng.choice(pool) if rng.random() < 0.6 else (rng.randint(-10 ** 6, 10 ** 6) if rng.random() < 0.5 else rng.uniform(-1e3, 1e3) * 10.0 ** rng.randint(-12, 12)) for _ in range(k)]
+        values.append(tuple(xs) if rng.random() < 0.4 else xs)
+    for xs in values:
+        ask("tostr " + ("T" if isinstance(xs, tuple) else "L") + "".join(" " + hx(str(x)) for x in xs))
+    # A3. str.replace(p, '') and str.strip("'")
+    repl = []
+    for _ in range(ck.n(150, 1500)):
+        pfx = rng.choice(["ab", "a", "aa", "aba", "_a_", "_material_", "sample_"])
+        body = "".join(rng.choice([pfx, pfx[:-1], "a", "b", "_", pfx[1:]]) for _ in range(rng.randint(0, 5)))
+        repl.append((pfx, body))
+        ask(f"removeall {hx(pfx)} {hx(body)}")
+    quoted = ["", "'", "''", "'q'", "it's", "'a", "a'", "''a''", " 'a' ", "a"] + ["".join(rng.choice("'ab \"") for _ in range(rng.randint(0, 6))) for _ in range(ck.n(100, 800))]
+    for s in quoted:
+        ask(f"stripq {hx(s)}")
+    # A4. material-property keys (inline logic of the readers: driven through the readers on minimal documents)
+    mat_keys = {"csv": [], "aif": []}
+    for fmt in mat_keys:
+        for _ in range(ck.n(40, 300)):
+            pfx = "_material_" if fmt == "csv" else "sample_"
+            key = "".join(rng.choice(MAT_PIECES) for _ in range(rng.randint(1, 4)))
+            if rng.random() < 0.5:
+                key = pfx + rng.choice(["a", "x1", "Q", "b_"]) + (rng.choice([pfx, pfx[:-1], pfx[1:]]) + rng.choice(["a", "z9", ""]) if rng.random() < 0.6 else "")
+            if key in ("_material_", "sample_") or key in mat_keys[fmt] or key.endswith("name") or key in isogen.RESERVED:
+                continue
+            mat_keys[fmt].append(key)
+            ask(f"mat {fmt} {hx(key)}")
+    aif_keys = ["two words", "a b c", "plain", "with-dash.dot", "UPPER", "x_y", " lead", "trail ", "a  b"]
+    for _ in range(ck.n(40, 300)):
+        k = "".join(rng.choice(KEY_ALPHA) for _ in range(rng.randint(1, 8)))
+        aif_keys.append(k)
+    aif_keys = [k for k in dict.fromkeys(aif_keys + mat_keys["aif"]) if k.strip(" _") and k.replace(" ", "_") not in isogen.RESERVED]
+    for k in aif_keys:
+        ask(f"aifkey {hx(k)}")
+        ask(f"mat aif {hx(k.replace(' ', '_'))}")
+    # A5. Excel end-of-table test, version gates
+    patterns = ["n", "z", "nz", "zn", "nzn", "nnz", "nen", "zen", "nze", "nnenn", "nzzn", "znne"] + ["".join(rng.choice("nnnze") for _ in range(rng.randint(1, 8))) for _ in range(ck.n(25, 200))]
+    patterns = [p_ for p_ in dict.fromkeys(patterns) if not p_.startswith("e")]
+    for p_ in patterns:
+        ask(f"xlcount row {p_}")
+    versions = {"csv": ["3.0", "2.9", "3", "10.0", "3.10", "2.99", "", "0", "0.0", "abc", "none", "None", "3.", ".5", "03.0", "4", "2", "v3"],
+                "aif": [aif_mod._parser_version, "'" + aif_mod._parser_version + "'", aif_mod._parser_version[:-1], aif_mod._parser_version + "0", "''", "x", "'x'"]}
+    for fmt, ws in versions.items():
+        for w in ws:
+            ask(f"gate {fmt} {hx(w)}")
+    # A6. the generated tables
+    TBL = {"aifMeta": "sss", "aifMetaOld": "sss", "aifData": "ss", "aifUnits": "s", "xlMeta": "sssnn", "versions": "sss", "csvModelWriter": "sss", "csvModelReader": "ss",
+           "csvHeaders": "ss", "xlPoint": "nnnnnn", "xlModelWriter": "nsnssn", "xlParams": "nnnn", "xlMarkers": "sss", "aifModelWriter": "ss?s", "aifPrefixes": "sssss", "aifLoops": "ss", "csvBranch": "ns", "xlBranch": "ns"}
+    for t in list(TBL) + ["precision"]:
+        ask(f"tbl {t}")
+
     try:
-        rep = ck.drive("TextCodec", [f"cast {hx(s)}" for s in strings] + [f"dom 2c {hx(s)}" for s in strings])
+        rep = ck.drive("TextCodec", lines)
     except Exception as e:
         rep = None
         ck.broken.append({"step": "driver TextCodec", "what": str(e)[:500]})
+    if rep is not None and "bad-op" in rep:
+        ck.broken.append({"step": "driver TextCodec", "what": "bad-op for " + lines[rep.index("bad-op")][:120]})
+        rep = None
+
+    def ans(line):
+        return rep[index[line]]
+
     in_domain = []
+    G = None
     if rep:
-        for s, r, d in zip(strings, rep[:len(strings)], rep[len(strings):]):
+        # ---------------------------------------------------------------- A. cast_string vs the Lean model
+        for s in strings:
+            r, d = ans(f"cast {hx(s)}"), ans(f"dom 2c {hx(s)}")
             real = cast_class(cast_string, s)
             ck.count(("cast", s), bucket="cast_string:" + real.split(":")[0], sample={"string": s, "class": real, "model": r} if len(s) == 3 and s[0] == "1" else None)
             if real != r:
-                n_dis += 1
-                if n_dis <= 3:
-                    ck.broken.append({"step": "correspondence Model/TextCodec.castString", "what": {"string": s, "model": r, "implementation": real}})
+                disagree("Model/TextCodec.castString", {"string": s, "model": r, "implementation": real})
             if d == "T":
                 in_domain.append(s)
                 # theorem-derived prediction: an in-domain text comes back as itself
                 if real != "str" or cast_string(s) != s:
                     ck.fail_case({"format": "csv", "clause": "in-domain text is not read back as itself"}, {"text": s, "read_as": real})
+
+        # ---------------------------------------------------------------- A2. _from_list / _to_string
+        def seq_real(s):
+            try:
+                v = _from_list(s)
+            except Exception:  # noqa
+                return "err", None
+            if isinstance(v, list):
+                return "list", v
+            if isinstance(v, tuple):
+                return "tuple", v
+            return "scalar", [v]
+
+        def seq_agrees(reply, kind, v):
+            f = reply.split(" ")
+            if f[0] != kind:
+                return False
+            if kind == "err":
+                return True
+            items = f[1:]
+            if len(items) != len(v):
+                return False
+            for it, x in zip(items, v):
+                cls, text = it[0], unhx(it[2:])
+                if isinstance(x, bool) or not isinstance(x, (int, float)) or cls != ("i" if isinstance(x, int) else "f"):
+                    return False
+                try:
+                    want = int(text) if cls == "i" else float(text)     # the item's value is Python's own reading of the item's text
+                except ValueError:
+                    return False
+                if not (x == want or (x != x and want != want)) or (cls == "f" and math.copysign(1, x) != math.copysign(1, want)):
+                    return False
+            return True
+        for s in seqs:
+            kind, v = seq_real(s)
+            r = ans(f"seq {hx(s)}")
+            ck.count(("seq", s), bucket="_from_list:" + kind, sample={"text": s, "model": r, "implementation": kind} if s in ("(1.5)", "[-3 4]", "[007]") else None)
+            if not seq_agrees(r, kind, v):
+                disagree("Model/TextCodec.fromList", {"text": s, "model": r, "implementation": [kind, repr(v)[:80]]})
+        for xs in values:
+            real = _to_string(xs)
+            r = unhx(ans("tostr " + ("T" if isinstance(xs, tuple) else "L") + "".join(" " + hx(str(x)) for x in xs)))
+            ck.count(("tostr", repr(xs)), bucket="_to_string:" + type(xs).__name__)
+            if real != r:
+                disagree("Model/TextCodec.toStringSeq", {"value": repr(xs)[:120], "model": r, "implementation": real})
+            # theorem-derived prediction (fromList_toString_list / _tuple / _tuple_single) on the real code: finite numbers come back, same types
+            try:
+                back = _from_list(real)
+            except Exception as e:  # noqa
+                ck.fail_case({"format": "csv", "clause": "list of numbers is not read back"}, {"value": repr(xs)[:200], "text": real, "error": repr(e)[:200]})
+                continue
+            want = xs[0] if isinstance(xs, tuple) and len(xs) == 1 else xs
+            ok = (type(back) is type(want) or (not isinstance(want, (list, tuple)) and isinstance(back, (int, float)))) and isogen.same_value(
+                [float(x) if isinstance(x, (float, np.floating)) else int(x) for x in (want if isinstance(want, (list, tuple)) else [want])],
+                list(back) if isinstance(back, (list, tuple)) else [back])
+            if not ok:
+                ck.fail_case({"format": "csv", "clause": "list of numbers comes back changed"}, {"value": repr(xs)[:200], "text": real, "read_as": repr(back)[:200]})
+
+        # ---------------------------------------------------------------- A3. replace / strip
+        for pfx, body in repl:
+            ck.count(("removeall", pfx, body), bucket="str.replace")
+            if unhx(ans(f"removeall {hx(pfx)} {hx(body)}")) != body.replace(pfx, ""):
+                disagree("Model/TextCodec.removeAll", {"prefix": pfx, "text": body, "model": unhx(ans(f"removeall {hx(pfx)} {hx(body)}")), "implementation": body.replace(pfx, "")})
+        for s in quoted:
+            ck.count(("stripq", s), bucket="str.strip")
+            if unhx(ans(f"stripq {hx(s)}")) != s.strip("'"):
+                disagree("Model/TextCodec.stripChar", {"text": s, "model": unhx(ans(f"stripq {hx(s)}")), "implementation": s.strip("'")})
+
+        # ---------------------------------------------------------------- A6. generated tables vs the imported objects
+        G = {t: _rows(ans(f"tbl {t}"), ty) for t, ty in TBL.items()}
+        G["precision"] = int(ans("tbl precision"))
+        live = {
+            "aifMeta": [(k, v["text"], v["type"].__name__) for k, v in aif_mod._META_DICT.items()],
+            "aifMetaOld": [(k, v["text"], v["type"].__name__) for k, v in aif_mod._META_DICT_OLD.items()],
+            "aifData": list(aif_mod._DATA_DICT.items()),
+            "aifUnits": [(u,) for u in aif_mod._UNITS_DICT],
+            "xlMeta": [(k, v["name"], v["text"][0], v["row"], v["column"]) for k, v in xl_mod._META_DICT.items()],
+            "versions": [(csv_mod._parser_version, xl_mod._parser_version, aif_mod._parser_version)],
+            "precision": parsing_pkg._PARSER_PRECISION,
+        }
+        for t, want in live.items():
+            ck.count(("table", t), bucket="generated table")
+            if G[t] != want:
+                disagree("Gen/Formats." + t, {"generated": repr(G[t])[:300], "imported": repr(want)[:300]})
+        if not (csv_mod._PARSER_PRECISION == aif_mod._PARSER_PRECISION == parsing_pkg._PARSER_PRECISION):
+            disagree("Gen/Formats.precision", {"csv": csv_mod._PARSER_PRECISION, "aif": aif_mod._PARSER_PRECISION, "package": parsing_pkg._PARSER_PRECISION})
+
+        # ---------------------------------------------------------------- A4. material keys / AIF keys through the real readers
+        base_iso = BaseIsotherm(**BASE_KW)
+        base_csv = isotherm_to_csv(base_iso)
+        for key in mat_keys["csv"]:
+            want = ans(f"mat csv {hx(key)}")
+            try:
+                d = isotherm_from_csv(base_csv + f"{key},1.5\n").to_dict()
+                got = ("prop " + hx([k for k in d["material"] if k != "name"][0])) if isinstance(d["material"], dict) else ("not" if d.get(key) == 1.5 else "lost")
+            except KeyError:
+                got = "keyerror"
+            except Exception as e:  # noqa
+                got = "EXC:" + type(e).__name__
+            ck.count(("mat", "csv", key), bucket="material key csv:" + got.split(" ")[0])
+            if got != want:
+                disagree("Model/TextCodec.matRead (csv reader)", {"key": key, "model": want, "implementation": got})
+        for key in aif_keys:
+            tag_back = ans(f"aifkey {hx(key)}").split(" ")
+            k2 = key.replace(" ", "_")
+            if tag_back[1] == "~" or unhx(tag_back[1]) != k2:
+                disagree("Model/TextCodec.aifKeyDec", {"key": key, "model": tag_back, "expected": k2})
+                continue
+            want = ans(f"mat aif {hx(k2)}")
+            try:
+                text = isotherm_to_aif(BaseIsotherm(**BASE_KW, **{key: 1.5}))
+                tag_ok = any(ln.split(" ")[0] == unhx(tag_back[0]) for ln in text.splitlines())
+                d = isotherm_from_aif(text).to_dict()
+                got = ("prop " + hx([k for k in d["material"] if k != "name"][0])) if isinstance(d["material"], dict) else ("not" if d.get(k2) == 1.5 else "lost")
+                if not tag_ok:
+                    got += " (tag not written)"
+            except KeyError:
+                got = "keyerror"
+            except Exception as e:  # noqa
+                got = "EXC:" + type(e).__name__
+            ck.count(("aifkey", key), bucket="aif custom key:" + got.split(" ")[0] + (" blank" if " " in key else ""),
+                     sample={"key": key, "comes back as": k2, "as": got} if key in ("two words", "sample_x1") else None)
+            if got != want:
+                disagree("Model/TextCodec.aifKeyEnc/aifKeyDec/matRead (aif writer + reader)", {"key": key, "model": want, "implementation": got})
+
+        # ---------------------------------------------------------------- A5. Excel end-of-table test on crafted workbooks; version gates
+        off = G["xlPoint"][0][5] if G["xlPoint"] else 1
+        for j, p_ in enumerate(patterns):
+            want = ans(f"xlcount row {p_}")
+            path = os.path.join(tmpdir, f"craft{j}.xls")
+            try:
+                _craft_xls(path, xl_mod._META_DICT, p_, off)
+                got = str(len(isotherm_from_xl(path).data_raw))
+            except Exception as e:  # noqa
+                got = "EXC:" + type(e).__name__
+            ck.count(("xlcount", p_), bucket="excel rows read", sample={"pressure cells": p_, "rows read": got} if p_ in ("nzn", "nen") else None)
+            if got != want:
+                disagree("Model/TextCodec.xlCount (excel reader, crafted workbook)", {"pressure column": p_ + " (n number, z zero, e empty)", "model rows": want, "implementation": got})
+        aif_text = isotherm_to_aif(base_iso)
+        for fmt, ws in versions.items():
+            for w in ws:
+                want = ans(f"gate {fmt} {hx(w)}")
+                with _Warnings(pg.logger) as rec:
+                    try:
+                        if fmt == "csv":
+                            isotherm_from_csv(base_csv.replace(f"file_version,{csv_mod._parser_version}\n", f"file_version,{w}\n"))
+                        else:
+                            isotherm_from_aif(aif_text.replace(f"_audit_aif_version {aif_mod._parser_version}\n", f"_audit_aif_version {w}\n"))
+                        got = "warn" if any("version" in m for m in rec.seen) else "ok"
+                    except Exception as e:  # noqa
+                        got = "raise" if isinstance(e, (ValueError, TypeError)) else "EXC:" + type(e).__name__
+                ck.count(("gate", fmt, w), bucket=f"version gate {fmt}:{got}")
+                if got != want:
+                    disagree(f"Model/TextCodec.gateWarns ({fmt} reader)", {"written version": w, "model": want, "implementation": got})
+        # ---------------------------------------------------------------- A7. old AIF tags (`_META_DICT_OLD`): a foreign document of another version
+        for tag, key, ty in G["aifMetaOld"]:
+            val = "1.25" if ty == "float" else "oldval"
+            cur = [t for t, k, _ in G["aifMeta"] if k == key]
+            doc = "".join(ln + "\n" for ln in aif_text.splitlines() if ln.split(" ")[0] not in cur)
+            doc = doc.replace(f"_audit_aif_version {aif_mod._parser_version}\n", "_audit_aif_version x\n") + f"{tag} '{val}'\n"
+            try:
+                got = isotherm_from_aif(doc).to_dict().get(key, "<absent>")
+            except Exception as e:  # noqa
+                got = "EXC:" + type(e).__name__
+            ck.count(("aif old tag", tag), bucket="aif old tag")
+            if got != (1.25 if ty == "float" else "oldval"):
+                disagree("Gen/Formats.aifMetaOld (aif reader on a document of another version)", {"tag": tag, "table says key": key, "type": ty, "read as": repr(got)[:80]})
     texts = [s for s in in_domain if s.isprintable() and "'" not in s and '"' not in s and ";" not in s and "#" not in s and "_" != s[:1] and "$" not in s] or ["plain"]
+    tol = 0.5e-8        # the DOCUMENTED precision of the property statement (8 decimals); that the code's precision is 8 is theorem precision_is_eight_decimals
 
     # ------------------------------------------------------------------ B. full round trips
-    tmpdir = tempfile.mkdtemp(prefix="pgv-c07-")
     n = ck.n(70, 400)
     try:
         for i in range(n):
             c = isogen.content(rng, domain="text")
+            _strengthen(rng, c)
             # metadata from the format domain: in-domain text (from the Lean predicate), non-negative ints, floats, bools
             meta = {}
             # (AIF declares `user`, `date`, `instrument`, `material_batch` as text and `material_mass`, `activation_temperature` as numbers: not used as free keys)
+            # TODO(candidate defects D1/D2, reported): keys starting with `data` / `model` (CSV, AIF) or `sample_` (AIF) are kept out of the generator
             for k in rng.sample(["project", "operator2", "machine", "lab", "t_act", "comment", "DOI", "is_real", "n_runs"], rng.randint(0, 5)):
                 r = rng.random()
                 meta[k] = (rng.choice(texts) if r < 0.4 else rng.randint(0, 10 ** rng.randint(0, 9)) if r < 0.55 else
@@ -107,7 +460,7 @@ def run(ck):
                                   ("none-like text", "None"), ("empty text", ""), ("text with quote", "it's"), ("text with blank", "two words")])
                 c["meta"]["odd_one"] = odd[1]
             try:
-                iso = isogen.build(pg, c)
+                iso = _build(pg, c)
             except Exception:
                 ck.count(("build-refused", i), nontrivial=False, bucket="construction refused")
                 continue
@@ -118,43 +471,59 @@ def run(ck):
                     br = c["branch"]
                     sig["interleaved_marks"] = any(b < a for a, b in zip(br, br[1:]))
                 target = rng.choice(["string", "file"]) if fmt != "xl" else "file"
+                doc = None
                 try:
                     if fmt == "csv":
                         if target == "file":
                             p = os.path.join(tmpdir, f"i{i}.csv")
                             isotherm_to_csv(iso, p)
                             back = isotherm_from_csv(p)
+                            doc = open(p, encoding="utf-8").read()
                         else:
-                            back = isotherm_from_csv(isotherm_to_csv(iso))
+                            doc = isotherm_to_csv(iso)
+                            back = isotherm_from_csv(doc)
                     elif fmt == "xl":
                         p = os.path.join(tmpdir, f"i{i}.xls")
                         isotherm_to_xl(iso, p)
+                        doc = p
                         back = isotherm_from_xl(p)
                     else:
                         if target == "file":
                             p = os.path.join(tmpdir, f"i{i}.aif")
                             isotherm_to_aif(iso, p)
                             back = isotherm_from_aif(p)
+                            doc = open(p, encoding="utf-8").read()
                         else:
-                            back = isotherm_from_aif(isotherm_to_aif(iso))
+                            doc = isotherm_to_aif(iso)
+                            back = isotherm_from_aif(doc)
                 except pgError as e:
                     ck.count((fmt, c["kind"], i), bucket=f"{fmt}:{c['kind']}:refused")
                     if odd is None:
-                        ck.fail_case({**sig, "clause": "in-domain isotherm refused", "error": type(e).__name__}, {"error": repr(e)[:300], "meta": _js(c["meta"])})
+                        ck.fail_case({**sig, "clause": "in-domain isotherm refused", "error": type(e).__name__}, {"error": repr(e)[:300], "meta": _js(c["meta"]), "content": _content(c)})
                     continue
                 except Exception as e:  # noqa
                     ck.count((fmt, c["kind"], i), bucket=f"{fmt}:{c['kind']}:raised")
                     ck.fail_case({**sig, "clause": "refusal is not a pyGAPS error" if odd else "in-domain isotherm raises", "error": type(e).__name__},
-                                 {"error": repr(e)[:300], "meta": _js(c["meta"])})
+                                 {"error": repr(e)[:300], "meta": _js(c["meta"]), "content": _content(c)})
                     continue
                 after = isogen.observe(pg, back)
-                ck.count((fmt, c["kind"], i), bucket=f"{fmt}:{c['kind']}:ok", sample={"format": fmt, "class": c["kind"], "metadata": _js(c["meta"])} if i % 41 == 0 else None)
-                diffs = _diff(before, after, fmt)
+                ck.count((fmt, c["kind"], i), bucket=f"{fmt}:{c['kind']}:ok" + (":fitted" if c.get("fitted") else "") + (":zeros" if c.get("zeros") else ""),
+                         sample={"format": fmt, "class": c["kind"], "metadata": _js(c["meta"])} if i % 41 == 0 else None)
+                diffs = _diff(before, after, fmt, tol)
                 for where, a, b, vclass in diffs[:6]:
                     ck.fail_case({**sig, "clause": "silently changed" if where.startswith("metadata") and odd and "odd_one" in where else "round trip differs",
-                                  "where": where.split(" ")[0], "value_class": vclass}, {"where": where, "exported": a, "imported": b, "meta": _js(c["meta"])})
+                                  "where": where.split(" ")[0], "value_class": vclass}, {"where": where, "exported": a, "imported": b, "meta": _js(c["meta"]), "content": _content(c)})
                 if not diffs and back.iso_id != iso.iso_id:
                     ck.fail_case({**sig, "clause": "identifier differs although content is equal"}, {"ids": [iso.iso_id, back.iso_id]})
+                # the document the real writer produced has the structure the generated tables describe (ties Gen/Formats to the writers)
+                if G is not None and doc is not None:
+                    try:
+                        bad = _structure(fmt, doc, iso, c, G, _to_string)
+                    except Exception as e:  # noqa
+                        bad = f"could not inspect the document: {e!r}"[:300]
+                    ck.count((fmt, c["kind"], i, "structure"), nontrivial=False, bucket=f"document structure {fmt}")
+                    if bad:
+                        disagree(f"Gen/Formats vs the document written by isotherm_to_{fmt}", {"class": c["kind"], "what": bad})
     finally:
         for f in os.listdir(tmpdir):
             os.remove(os.path.join(tmpdir, f))
@@ -162,9 +531,152 @@ def run(ck):
     ck.cov["correspondence_disagreements"] = n_dis
     ck.cov["in_domain_texts"] = len(in_domain)
     ck.cov["rule"] = ("A: grammar-directed and random strings over the model alphabet (number / near-number / none / bool / list spellings, blanks, separators, non-ASCII letters) through cast_string vs the Lean classes; "
-                      "B: three formats x three classes x seeded unit configurations x data shapes (1-13 points, ads-only / two-branch / des-only / user marks, numeric extra columns, every model) with metadata from the format domain "
+                      "bracketed texts over the numeric alphabet through _from_list, lists / tuples of ints and floats through _to_string and back; str.replace / str.strip; material-property and custom keys through the "
+                      "CSV reader and the AIF writer + reader on minimal documents; pressure columns with zeros and gaps in workbooks written with xlwt through the Excel reader; version texts through the gates; "
+                      "generated tables against the imported objects and against the documents the writers produce; "
+                      "B: three formats x three classes x seeded unit configurations x data shapes (1-13 points, ads-only / two-branch / des-only / user marks, numeric extra columns, zeros at any position of any column, "
+                      "zero and negative temperatures, every model with given ranges and models fitted on data) with metadata from the format domain "
                       "(in-domain text as decided by the Lean predicate, non-negative ints, floats, bools) plus one out-of-domain value in half of the isotherms; string and file targets; distinct = (format, class, content)")
-    ck.assumptions += ["gemmi.cif, xlrd/xlwt, pandas.read_csv/to_csv are exercised by the round trips only", "digits of non-ASCII scripts are outside the model alphabet"]
+    ck.assumptions += ["gemmi.cif, xlrd/xlwt, pandas.read_csv/to_csv are exercised by the round trips only", "digits of non-ASCII scripts are outside the model alphabet",
+                       "_from_list is modelled on flat sequences of numeric literals over digits, sign, '.', 'e', '_' (nested sequences, quoted text, complex / hex literals outside)",
+                       "metadata keys beginning with 'data' / 'model' (CSV, AIF) or 'sample_' (AIF), and material-property names containing the format's prefix, are outside the generator (reported candidates)"]
+
+
+def _strengthen(rng, c):
+    """values the repository's tests never export: exact zeros at any position of any column, zero / negative temperatures, models fitted on data"""
+    if rng.random() < 0.2:
+        c["temperature"] = rng.choice([0, 0.0, -5.5, -40, -195.795, 1e-3])
+    if c["kind"] == "point":
+        n = len(c["pressure"])
+        if rng.random() < 0.4:
+            c["zeros"] = True
+            for col in [c["pressure"], c["loading"]] + [v for k, v in c["extra"].items() if k != "counter"]:
+                if rng.random() < 0.6:
+                    for j in rng.sample(range(n), rng.choice([1, 1, 2]) if n > 1 else 1):
+                        col[j] = 0.0
+    elif c["kind"] == "model" and rng.random() < 0.35:
+        k = rng.choice([4, 6, 9])
+        ps = sorted(rng.uniform(0.01, 5.0) for _ in range(k))
+        a, b = rng.uniform(1, 8), rng.uniform(0.2, 3)
+        c["fitted"] = {"model": rng.choice(["Henry", "Henry", "Langmuir", "Freundlich"]), "pressure": ps,
+                       "loading": [a * b * p_ / (1 + b * p_) * (1 + rng.uniform(-0.02, 0.02)) for p_ in ps]}
+
+
+def _build(pg, c):
+    if c.get("fitted"):
+        f = c["fitted"]
+        mat = c["material"] if not c["material_props"] else {"name": c["material"], **c["material_props"]}
+        return pg.ModelIsotherm(pressure=f["pressure"], loading=f["loading"], model=f["model"], material=mat, adsorbate=c["adsorbate"],
+                                temperature=c["temperature"], **c["units"], **c["meta"])
+    return isogen.build(pg, c)
+
+
+def _content(c):
+    out = {k: c[k] for k in ("kind", "units", "temperature", "material", "material_props", "adsorbate") if k in c}
+    for k in ("pressure", "loading", "branch", "extra", "model", "fitted"):
+        if k in c:
+            out[k] = _js(c[k])
+    return out
+
+
+def _structure(fmt, doc, iso, c, G, to_string):
+    """None when the written document is laid out as Gen/Formats says, else a description of the first difference"""
+    kind = c["kind"]
+    model = iso.model if kind == "model" else None
+    if fmt == "csv":
+        ls = doc.split("\n")
+        dh, mh = G["csvHeaders"][0]
+        if kind == "point":
+            if dh.rstrip("\n") not in ls:
+                return f"data header {dh!r} not in the document"
+            at = ls.index(dh.rstrip("\n")) + 1
+            cols = ls[at].split(",")
+            if cols[:2] != [iso.pressure_key, iso.loading_key] or "branch" not in cols:
+                return f"column line {ls[at]!r}: pressure, loading first and a branch column expected"
+            texts = {n: t for n, t in G["csvBranch"]}
+            got = [x.split(",")[cols.index("branch")] for x in ls[at + 1:] if x]
+            want = [texts.get(int(b)) for b in iso.data_raw["branch"]]
+            return None if got == want else f"branch cells {got[:6]} differ from {want[:6]} (generated codec {G['csvBranch']})"
+        if kind != "model":
+            return None
+        if mh.rstrip("\n") not in ls:
+            return f"model header {mh!r} not in the document"
+        at = ls.index(mh.rstrip("\n")) + 1
+        for j, (label, attr, conv) in enumerate(G["csvModelWriter"]):
+            v = getattr(model, attr)
+            want = label + "," + (v if conv == "raw" else to_string(v) if conv == "_to_string" else str(v))
+            if ls[at + j] != want:
+                return f"line {j + 1} of the model block is {ls[at + j]!r}, the generated table says {want!r}"
+        rest = [x for x in ls[at + len(G["csvModelWriter"]):] if x]
+        want = [f"{k},{v}" for k, v in model.params.items()]
+        return None if rest == want else f"parameter lines {rest[:3]} differ from {want[:3]}"
+    if fmt == "xl":
+        import xlrd
+        sht = xlrd.open_workbook(doc).sheet_by_name("data")
+
+        def cell(r, col):
+            return sht.cell(r, col).value if r < sht.nrows and col < sht.ncols else "<outside>"
+        hr, dr, fc, tr, tc, off = G["xlPoint"][0]
+        d = iso.to_dict()
+        for key, name, text, r, col in G["xlMeta"]:
+            if cell(r, col) != text:
+                return f"label of {name} at ({r},{col}) is {cell(r, col)!r}, table says {text!r}"
+            if name in d and not isinstance(d[name], dict) and d[name] is not None and cell(r, col + off) != d[name]:
+                return f"value of {name} at ({r},{col + off}) is {cell(r, col + off)!r}, isotherm has {d[name]!r}"
+        t0 = [r for k, _, _, r, _ in G["xlMeta"] if k == "isotherm_data"][0]
+        tcol = [col for k, _, _, _, col in G["xlMeta"] if k == "isotherm_data"][0]
+        marker = G["xlMarkers"][0][{"point": 0, "model": 1, "base": 2}[kind]]
+        if cell(t0, tcol + off) != marker:
+            return f"type marker at ({t0},{tcol + off}) is {cell(t0, tcol + off)!r}, table says {marker!r}"
+        if kind == "point":
+            raw = iso.data_raw
+            cols = [iso.pressure_key, iso.loading_key, "branch"] + iso.other_keys
+            for j, h in enumerate(cols):
+                if cell(t0 + hr, fc + j) != h:
+                    return f"heading {j} at ({t0 + hr},{fc + j}) is {cell(t0 + hr, fc + j)!r}, expected {h!r}"
+            for j, h in enumerate(cols[:2] + iso.other_keys):
+                col = fc + j if j < 2 else fc + j + 1
+                if len(raw) and abs(float(cell(t0 + dr, col)) - float(raw[h].iloc[0])) > 1e-12 * max(1.0, abs(float(raw[h].iloc[0]))):
+                    return f"first value of {h} at ({t0 + dr},{col}) is {cell(t0 + dr, col)!r}, data has {raw[h].iloc[0]!r}"
+            for j, h in enumerate(iso.other_keys):
+                if cell(t0 + tr, tc + j) != raw[h].dtype.name:
+                    return f"dtype of {h} at ({t0 + tr},{tc + j}) is {cell(t0 + tr, tc + j)!r}"
+        elif kind == "model":
+            for r, label, lc, attr, conv, vc in G["xlModelWriter"]:
+                v = getattr(model, attr)
+                want = v if conv == "raw" else str(v)
+                if cell(t0 + r, lc) != label or cell(t0 + r, vc) != want:
+                    return f"model row {r}: ({cell(t0 + r, lc)!r}, {cell(t0 + r, vc)!r}), table says ({label!r}, {want!r})"
+            fr, nc, vcol, _ = G["xlParams"][0]
+            for j, (k, v) in enumerate(model.params.items()):
+                if cell(t0 + fr + j, nc) != k or cell(t0 + fr + j, vcol) != v:
+                    return f"parameter row {j}: ({cell(t0 + fr + j, nc)!r}, {cell(t0 + fr + j, vcol)!r}), expected ({k!r}, {v!r})"
+        return None
+    # aif
+    from gemmi import cif
+    block = cif.read_string(doc).sole_block()
+    custom, param, *_ = G["aifPrefixes"][0]
+    d = iso.to_dict()
+    for tag, key, _ty in G["aifMeta"]:
+        if key in d and not isinstance(d[key], dict) and block.find_value(tag) is None:
+            return f"field {key} present but tag {tag} not written"
+    if kind == "model":
+        for tag, attr, idx, conv in G["aifModelWriter"]:
+            v = getattr(model, attr)
+            v = v if idx is None else v[idx]
+            got = block.find_value(tag)
+            if got is None or got.strip("'") != (v if conv == "raw" else str(v)):
+                return f"tag {tag} is {got!r}, table says {attr}{'' if idx is None else [idx]} = {v!r}"
+        for k, v in model.params.items():
+            if block.find_value(param + k) != str(v):
+                return f"parameter tag {param + k} is {block.find_value(param + k)!r}, expected {v!r}"
+    if kind == "point":
+        for br, pfx, *tags in G["aifLoops"]:
+            has = iso.has_branch(br)
+            col = block.find_values(pfx + tags[0])
+            if has != (len(col) > 0):
+                return f"branch {br}: loop {pfx}{tags[0]} {'missing' if has else 'present without data'}"
+    return None
 
 
 def _js(x):
@@ -187,7 +699,7 @@ def _vclass(v):
     return "text"
 
 
-def _diff(a, b, fmt):
+def _diff(a, b, fmt, tol=0.5e-8):
     out = []
     if a["class"] != b["class"]:
         out.append(("class", a["class"], b["class"], "class"))
@@ -208,7 +720,7 @@ def _diff(a, b, fmt):
                     out.append(("branch marks / order", ca[k][:12], cb[k][:12], "branch"))
             else:
                 xa, xb = ca[k], cb[k]
-                if len(xa) != len(xb) or any((abs(float(x) - float(y)) > 0.5e-8 + 1e-12 * abs(float(x))) if not isinstance(x, str) else x != y for x, y in zip(xa, xb)):
+                if len(xa) != len(xb) or any((abs(float(x) - float(y)) > tol + 1e-12 * abs(float(x))) if not isinstance(x, str) else x != y for x, y in zip(xa, xb)):
                     out.append((f"data column {k!r}", xa[:4], xb[:4], "data"))
     ma, mb = a.get("model"), b.get("model")
     if (ma is None) != (mb is None):
